@@ -182,4 +182,8 @@ def respond (sh : AuthShape) (cfg : Cfg) (rq : Req) : Resp :=
     else ⟨true, true, []⟩
   else ⟨false, false, serviceCode cfg rq.verb (route cfg rq.path)⟩
 
+/-- a history of requests against one app instance: the middleware keeps nothing between requests
+    (`AuthShape.stateless`, extracted), so each request is answered by `respond` alone, whatever came before it -/
+def respondAll (sh : AuthShape) (cfg : Cfg) (history : List Req) : List Resp := history.map (respond sh cfg)
+
 end VgiVerif.C20
